@@ -54,6 +54,9 @@ fn kind_name(i: usize) -> &'static str {
 }
 
 static DEPS: [AtomicU16; N] = [const { AtomicU16::new(0) }; N];
+/// statics j > i that the *destructor* of the state captured by a family of static i touches
+/// (it runs when a thread's candidate family loses the first-access race and is discarded)
+static DROP_DEPS: [AtomicU16; N] = [const { AtomicU16::new(0) }; N];
 static PAUSE: [AtomicU8; N] = [const { AtomicU8::new(0) }; N];
 static INIT_RUNS: AtomicU32 = AtomicU32::new(0);
 static NEXT_INST: AtomicU32 = AtomicU32::new(0);
@@ -99,6 +102,19 @@ struct FamState {
     idx: u8,
     run: u32,
     counter: AtomicU32,
+}
+
+impl Drop for FamState {
+    fn drop(&mut self) {
+        // only discarded candidate families ever get here (registered families live for ever)
+        let idx = usize::from(self.idx);
+        let deps = DROP_DEPS[idx].load(Relaxed);
+        for j in idx + 1..N {
+            if (deps >> j) & 1 == 1 {
+                touch(j, idx as i8, 0);
+            }
+        }
+    }
 }
 
 struct Probe {
@@ -284,6 +300,10 @@ struct SCase {
     pause: Vec<u8>,
     /// access order of each thread
     threads: Vec<Vec<Access>>,
+    /// drop_deps[i] = bit set of statics j > i touched by the destructor of the state a family of
+    /// static i captured (runs for candidate families discarded after a lost first-access race)
+    #[serde(default)]
+    drop_deps: Vec<u16>,
 }
 
 #[derive(Debug, Clone, Serialize, Deserialize, Default)]
@@ -312,6 +332,7 @@ fn worker_statics_case(req: &str) -> SReply {
     for i in 0..N {
         DEPS[i].store(case.deps.get(i).copied().unwrap_or(0) & !((1u32 << (i + 1)) - 1) as u16, Relaxed);
         PAUSE[i].store(case.pause.get(i).copied().unwrap_or(0), Relaxed);
+        DROP_DEPS[i].store(case.drop_deps.get(i).copied().unwrap_or(0) & !((1u32 << (i + 1)) - 1) as u16, Relaxed);
     }
     let n = case.threads.len();
     // released together: a blocking barrier until every thread exists, then a short spin barrier
@@ -542,6 +563,14 @@ fn scase_strategy() -> impl Strategy<Value = SCase> {
                     };
                     deps[i] = raw & above;
                 }
+                // half of the cases: destructors of captured family state touch later statics too
+                let mut drop_deps = vec![0u16; N];
+                if m1[0] & 1 == 1 {
+                    for i in 0..N {
+                        let above: u16 = if i + 1 >= 16 { 0 } else { !((1u32 << (i + 1)) - 1) as u16 };
+                        drop_deps[i] = m1[(i + 5) % N] & m2[(i + 9) % N] & above;
+                    }
+                }
                 let threads = orders
                     .into_iter()
                     .map(|o| {
@@ -554,7 +583,7 @@ fn scase_strategy() -> impl Strategy<Value = SCase> {
                             .collect()
                     })
                     .collect();
-                SCase { deps, pause, threads }
+                SCase { deps, pause, threads, drop_deps }
             })
         })
 }
@@ -710,6 +739,9 @@ fn check_statics(case: &SCase, ctx: &mut Ctx, drv: &mut StaticsDriver) -> Verdic
         1..=3 => "reachable-edges:1-3",
         _ => "reachable-edges:4+",
     });
+    if reach.iter().any(|i| case.drop_deps.get(*i).copied().unwrap_or(0) != 0) {
+        ctx.classify("destructor-of-captured-family-state-touches-later-statics");
+    }
     ctx.classify(match depth {
         0 => "nesting-depth:0",
         1 => "nesting-depth:1",
